@@ -1245,13 +1245,19 @@ class Tensor:
         for var in tensor_vars:
             var._ops.add(ref_f)
 
-        tensor_out = cls(
-            op_out,
-            constant=constant,
-            copy=False,
-            _creator=f,
-            _base=base,
-        )
+        try:
+            tensor_out = cls(
+                op_out,
+                constant=constant,
+                copy=False,
+                _creator=f,
+                _base=base,
+            )
+        except Exception as e:
+            # e.g. an integer-valued result was requested to be a variable
+            if _mem.MEM_GUARD:
+                _mem.release_writeability_lock_on_op(_uniques_bases_then_arrs)
+            raise e
 
         if parent_var is not None:
             parent_var._view_children.append(tensor_out)
